@@ -118,6 +118,9 @@ def script_and_template(cid, path, steps):
             lines.append("ioption 0 3 %d" % s["len"])
         elif s["op"] == "reinit":
             lines.append("init_adv_read 0 0")
+        elif s["op"] == "swap":
+            lines += ["open 8 %s rw" % path, "pwrite 8 0 file:%s" % s["other"], "closefd 8", "seek 0 0"]
+            continue
         else:
             lines.append("%s 0" % s["op"])
         lines.append("clear_error 0")
@@ -136,6 +139,8 @@ def enrich(evs, steps, buf, sealed, refbuf=None):
     pinned = None
     n0 = len(out)
     for s in steps:
+        if s["op"] == "swap":
+            out.append({"op": "swap"}); continue
         if i + 1 >= len(calls) + 1 and i >= len(calls):
             break
         e = calls[i]; ce = calls[i + 1] if i + 1 < len(calls) else {"err": 9}; i += 2
@@ -224,12 +229,28 @@ def run(tier):
                 s = good[:pos] + bytes([c]) + good[pos + 1:]
                 steps = [{"op": "settype", "type": h.hash_type}, {"op": "setdigest", "str": s}, {"op": "validate_lead"}, {"op": "read_lead"}, {"op": "read_header"}]
                 cases.append(("sw%d-%d-%d" % (fi, pos, c), path, buf, sealed, steps, buf))
+    # the file behind the descriptor is replaced (same layout, another header checksum) after a lead-only validation that
+    # matched the pins: the pins stay in force, the new bytes must be refused by every later lead read on the same context
+    for fi, (path, buf, sealed, refbuf) in enumerate(files[:4]):
+        h = ref.parse_header(buf)
+        chunks2 = [b"", b"HELLO WORLD %d" % fi, b"second chunk" * 3]
+        other, _ = ref.build_file(chunks2, comp_type=0, hash_type=h.hash_type, chunk_hash_type=1)
+        if len(other) != len(buf) or ref.parse_header(other).header_digest == h.header_digest:
+            continue
+        op_ = os.path.join(wd, "pin%d.other" % fi); open(op_, "wb").write(other)
+        pinsets = [[{"op": "settype", "type": h.hash_type}, {"op": "setdigest", "str": h.header_digest.hex().encode()}],
+                   [{"op": "settype", "type": h.hash_type}, {"op": "setdigest", "str": h.header_digest.hex().encode()}, {"op": "setlen", "len": h.hdr_total}]]
+        for pi, pins in enumerate(pinsets):
+            for tail in (["validate_lead", "SWAP", "validate_lead", "read_lead"], ["validate_lead", "validate_lead", "SWAP", "read_lead", "read_header"], ["validate_lead", "SWAP", "validate_lead", "validate_lead", "read_lead"]):
+                priv = os.path.join(wd, "pinswap%d-%d-%d.zck" % (fi, pi, n)); open(priv, "wb").write(buf)
+                steps = pins + [({"op": "swap", "other": op_} if o == "SWAP" else {"op": o}) for o in tail]
+                cases.append(("swap%d-%d" % (fi, n), priv, buf, sealed, steps, buf)); n += 1
     # state carried between calls: in every third case the context is initialised for reading AGAIN (same descriptor) after
     # the pins were set and before the lead is looked at; the pins stay in force (Pin!Reinit)
     for k, c in enumerate(cases):
         steps = c[4]
         firstlead = [j for j, s in enumerate(steps) if s["op"] in ("validate_lead", "read_lead", "read_header")]
-        if k % 3 == 1 and firstlead and firstlead[0] > 0:
+        if k % 3 == 1 and firstlead and firstlead[0] > 0 and not c[0].startswith("swap"):
             cases[k] = (c[0] + "R", c[1], c[2], c[3], steps[:firstlead[0]] + [{"op": "reinit"}] + steps[firstlead[0]:], c[5])
     scripts = {}
     for (cid, path, buf, sealed, steps, refbuf) in cases:
